@@ -119,6 +119,7 @@ PROPS = {
         'parts': [
             part('values', SCRIPT, 2500, 80000, judge=True, props=['C14'], sub='value', chunk=150),
             part('templates', SCRIPT, 1500, 40000, judge=True, props=['C14'], sub='template', chunk=150),
+            part('values-sqlite', SCRIPT, 60, 1500, judge=True, props=['C14'], sub='value', chunk=10, store='sqlite'),
         ],
     },
     'C18': {
